@@ -90,6 +90,8 @@ pub struct Model {
     pub peer_alias: BTreeMap<u16, String>,
     /// what we must hold from the PUBLISHes the peer sent
     pub local_alias: BTreeMap<u16, String>,
+    /// what the application bound through accepted sends on this connection, sent or only queued
+    pub app_alias: BTreeMap<u16, String>,
     pub ka_ms: u64,
     pub ska_ms: Option<u64>,
     pub user_ms: Option<u64>,
@@ -126,6 +128,7 @@ impl Model {
             tam_recv: 0,
             peer_alias: BTreeMap::new(),
             local_alias: BTreeMap::new(),
+            app_alias: BTreeMap::new(),
             ka_ms: 0,
             ska_ms: None,
             user_ms: None,
@@ -159,6 +162,7 @@ impl Model {
         self.tam_recv = 0;
         self.peer_alias.clear();
         self.local_alias.clear();
+        self.app_alias.clear();
         self.in_unans.clear();
         self.subs.clear();
         self.unsubs.clear();
